@@ -260,13 +260,20 @@ def margin_extra(obl):
     return "".join(ex)
 
 
-def decide_all(obls, tier, workers=16, log=None):
-    """Decide every obligation. Mutates each obligation dict with 'verdict', 'solver', 'seconds', 'model'."""
-    cap = 180 if tier == "quick" else 400
+def decide_all(obls, tier, workers=16, log=None, models=True, on_sat=None, stop_after=6, cap=None):
+    """Decide every obligation. Mutates each obligation dict with 'verdict', 'solver', 'seconds', 'model'.
+    `on_sat(o) -> bool` is called for every obligation that came back `sat` with a model (it replays the model natively
+    and returns True for a confirmed, unlisted violation); once `stop_after` violations are confirmed the remaining
+    undecided obligations are left 'skipped' — the run is a VIOLATION whatever they are."""
+    cap = cap or (180 if tier == "quick" else 400)
     t0 = time.time()
     # pass 1: batches per (case, theory) with a short per-query limit
     groups = {}
     for o in obls:
+        if o["theory"] == "fp" and not o.get("trivial"):
+            # bit-blasting queries do not belong in the short-timeout batch: straight to the portfolio
+            o.update({"verdict": "unknown", "solver": None, "seconds": 0.0, "model": {}})
+            continue
         groups.setdefault((o["case"], o["theory"]), []).append(o)
     chunks = []
     for key, lst in groups.items():
@@ -286,11 +293,42 @@ def decide_all(obls, tier, workers=16, log=None):
 
     with ThreadPoolExecutor(max_workers=workers) as ex:
         batch_secs = sum(ex.map(do_chunk, chunks))
-    # pass 2: everything not 'unsat' goes to the portfolio individually ('sat' to get a model from a fresh run)
-    todo = [o for o in obls if o["verdict"] != "unsat"]
+    # pass 2: everything not 'unsat' goes to the portfolio individually ('sat' first, to get a model from a fresh run)
+    todo = [o for o in obls if o["verdict"] != "unsat" and (models or o["verdict"] != "sat")]
+    todo.sort(key=lambda o: 0 if o["verdict"] == "sat" else 1)
+    confirmed = [0]
+    skipped = [0]
 
     def do_one(o):
+        if confirmed[0] >= stop_after:
+            if o["verdict"] != "sat":
+                o["verdict"] = "skipped"
+            skipped[0] += 1
+            return
         r = None
+        if o["theory"] == "fp" and o.get("smt_real") and on_sat is not None:
+            # candidate counterexample from the real reading of a Float32 identity (confirmed natively or discarded)
+            alt = {"smt": o["smt_real"], "vars": o["vars_real"], "theory": "real", "kind": "claim"}
+            ex = "".join("(assert (and (<= (- 4.0) %s) (<= %s 4.0)))\n" % (s_, s_) for _, s_ in alt["vars"])
+            ra = solve_one(alt, 10, extra=ex)
+            if ra["verdict"] == "sat" and ra["model"]:
+                saved = (o.get("verdict"), o.get("model"))
+                o["model"] = ra["model"]
+                o["verdict"] = "sat"
+                o["solver"] = (ra["solver"] or "") + "(real candidate)"
+                try:
+                    hit = on_sat(o)
+                except Exception as e:
+                    hit = False
+                    o["replay_error"] = str(e)
+                if o.get("reproduced"):
+                    if hit:
+                        confirmed[0] += 1
+                    return
+                # not reproduced: forget the candidate, decide the Float32 obligation itself
+                o["verdict"], o["model"] = saved
+                o.pop("reproduced", None)
+                o.pop("replay_out", None)
         if o["verdict"] == "sat":
             ex = margin_extra(o)
             if ex:
@@ -300,12 +338,18 @@ def decide_all(obls, tier, workers=16, log=None):
         if r is None:
             r = solve_one(o, cap)
         o.update({"verdict": r["verdict"], "solver": r["solver"], "seconds": o.get("seconds", 0) + r["seconds"], "model": r["model"], "solver_log": r["log"]})
+        if on_sat is not None and o["verdict"] == "sat":
+            try:
+                if on_sat(o):
+                    confirmed[0] += 1
+            except Exception as e:  # a replay problem must not hide the verdict
+                o["replay_error"] = str(e)
 
     with ThreadPoolExecutor(max_workers=max(2, workers // 2)) as ex:
         list(ex.map(do_one, todo))
     # thorough: second opinion on a sample of fast unsat obligations
     checked = 0
-    if tier == "thorough":
+    if tier == "thorough" and confirmed[0] == 0:
         sample = [o for o in obls if o["verdict"] == "unsat" and not o.get("trivial")][:: max(1, len(obls) // 400)]
 
         def second(o):
@@ -317,4 +361,4 @@ def decide_all(obls, tier, workers=16, log=None):
         with ThreadPoolExecutor(max_workers=workers) as ex:
             list(ex.map(second, sample))
         checked = len(sample)
-    return {"batch_solver_seconds": batch_secs, "wall_seconds": time.time() - t0, "second_opinions": checked}
+    return {"batch_solver_seconds": batch_secs, "wall_seconds": time.time() - t0, "second_opinions": checked, "skipped_after_violation": skipped[0]}
